@@ -1212,12 +1212,24 @@ func TestVerif(t *testing.T) {
 		}
 	}
 	// real threads: overlapping Signal / Broadcast / Wait
-	if env.Thorough() || env.Deep {
+	// (results are written after each phase: a later phase that the library under test brings down or blocks
+	// must not take the findings of an earlier one with it; the broadcast phase assumes the lock discipline of
+	// Wait that the first phase judges, so it is skipped once that one has failed)
+	long := env.Thorough() || env.Deep
+	before := len(res.Failures)
+	if long {
 		stressCondPhase(res, 10*time.Second)
-		stressBroadcastPhase(res, 8*time.Second)
 	} else {
 		stressCondPhase(res, 1200*time.Millisecond)
-		stressBroadcastPhase(res, 1200*time.Millisecond)
+	}
+	res.Write(env.Out)
+	if len(res.Failures) == before {
+		if long {
+			stressBroadcastPhase(res, 8*time.Second)
+		} else {
+			stressBroadcastPhase(res, 1200*time.Millisecond)
+		}
+		res.Write(env.Out)
 	}
 	for _, f := range vlib.CorpusFiles(env.Corpus, ".scn") {
 		b, err := os.ReadFile(f)
